@@ -1,6 +1,6 @@
 // C17: fixed workspaces of the correspondence leg c17.filter (generated once from scratch files; edit by hand).
 // w1 triggers diagnostic types 1-23, 26, 28, 29; w2 is shaped after the examples of docs/manual/config.md; w3 adds type 24;
-// w4 (leg c17.live only) has a file without any diagnostic.
+// w4 (leg c17.live only) has a file without any diagnostic; w5 (leg c17.filter only) has annotation types defined in several files.
 // No global is defined in two files (C09 order dependence) and no file name is a substring / regexp match of
 // another one (the raw oracle ignores files by their literal names). w2 has the folders c+v (a valid regexp that does not
 // match its own text) and c++ (not a regexp at all), so that the literal strings.Contains half of every rule matters.
@@ -244,6 +244,45 @@ goto w4label
 `,
 		"top.lua": `local t4 = { k = 1, k = 2 }
 local u4 = t4.k == 1.5
+`,
+	},
+	// w5 (leg c17.filter only): one annotation type name defined in THREE files (the cross-file "duplicate annotate type"
+	// warning, type 18, one per defining file; the walk goes through the definitions in file-name order) and a second one
+	// defined in TWO files (mid/pair.lua, dupc.lua); every file has a diagnostic of another type as well. For per-file
+	// silencing rules (IgnoreFileOrDirError / IgnoreFileErr / IgnoreFileErrTypes with 18) that name the first / middle /
+	// last defining file: the rule takes the named file's diagnostics away and nobody else's.
+	"w5": {
+		"dupa.lua": `---@class Trio
+---@field a number
+local TrioA = {}
+local dupaunused = 1
+return TrioA
+`,
+		"dupb.lua": `local dupbunused = 1
+---@class Trio
+---@field b string
+local TrioB = {}
+dupbg = dupbundef
+return TrioB
+`,
+		"dupc.lua": `---@class Trio
+---@field c number
+local TrioC = {}
+---@class Pair
+local PairC = {}
+goto dupclabel
+return TrioC, PairC
+`,
+		"mid/pair.lua": `---@class Pair
+---@field p number
+local PairM = {}
+local pairt = { k = 1, k = 2 }
+return PairM, pairt
+`,
+		"solo.lua": `---@type Trio
+local st = {}
+local solounused = 1
+return st
 `,
 	},
 }
